@@ -108,12 +108,12 @@ func (sc *smtScript) renderSel(ob *Obligation, withModel bool, only int, sel map
 			if relaxed && (strings.Contains(p, "(forall ") || strings.Contains(p, "(exists ")) {
 				continue
 			}
-			if ob.Kind == "vacuity" && strings.Contains(p, ":pattern") {
+			if satCheck(ob) && strings.Contains(p, ":pattern") {
 				continue // engine-generated frame/ghost axioms: consistent by construction, and they only make the sat check slow
 			}
 			body.WriteString("(assert " + p + ")\n")
 		}
-		if ob.Kind == "vacuity" {
+		if satCheck(ob) {
 			// satisfiability of the assumptions themselves
 		} else {
 			body.WriteString("(assert (not " + vc.goal + "))\n")
@@ -194,6 +194,8 @@ func runSolver(ctx context.Context, sp solverSpec, file string, timeoutS int) (s
 }
 
 // solveObligation discharges one obligation with the portfolio.
+func satCheck(ob *Obligation) bool { return ob.Kind == "vacuity" || ob.Kind == "cover" }
+
 func solveObligation(sc *smtScript, ob *Obligation, opts solveOpts) {
 	nontrivial := 0
 	for _, vc := range ob.VCs {
@@ -337,7 +339,7 @@ func solveObligation(sc *smtScript, ob *Obligation, opts solveOpts) {
 		ob.Status, ob.Detail = "error", err.Error()
 		return
 	}
-	if ob.Kind == "vacuity" && opts.timeoutS > 4 {
+	if satCheck(ob) && opts.timeoutS > 4 {
 		opts.timeoutS = 4
 	}
 	ctx, cancel := context.WithCancel(context.Background())
@@ -393,6 +395,17 @@ func solveObligation(sc *smtScript, ob *Obligation, opts solveOpts) {
 					cancel()
 				}
 			}
+		} else if ob.Kind == "cover" && !decided {
+			all := true
+			for _, b := range best {
+				if b.status == "unknown" {
+					all = false
+				}
+			}
+			if all {
+				decided = true
+				cancel()
+			}
 		} else if !opts.all && !decided {
 			allUnsat, anySat := true, false
 			for _, b := range best {
@@ -412,6 +425,21 @@ func solveObligation(sc *smtScript, ob *Obligation, opts solveOpts) {
 	ob.TimeS = time.Since(t0).Seconds()
 	ob.Detail = strings.Join(raws, " ; ")
 	used := map[string]bool{}
+	if ob.Kind == "cover" {
+		// VCs come in pairs (assumptions before the call / after assuming the callee's postcondition, or before a loop /
+		// after assuming its invariants): a satisfiable state must not be turned into an unsatisfiable one
+		ob.Status = "discharged"
+		for i := 0; i+1 < len(best); i += 2 {
+			used[best[i].solver], used[best[i+1].solver] = true, true
+			if best[i].status == "sat" && best[i+1].status == "unsat" {
+				ob.Status = "failed"
+				ob.Detail = "reachable state becomes unreachable once the contract/invariant is assumed (contradictory or unsound specification): " + ob.Detail
+			}
+		}
+		delete(used, "")
+		ob.Solver = strings.Join(sortedKeys(used), "+")
+		return
+	}
 	if ob.Kind == "vacuity" {
 		// at least one path must be satisfiable (or undecided); all-unsat means vacuous assumptions
 		allUnsat := true
@@ -447,7 +475,9 @@ func solveObligation(sc *smtScript, ob *Obligation, opts solveOpts) {
 	switch {
 	case allUnsat:
 		ob.Status = "discharged"
-		os.Remove(file)
+		if os.Getenv("GOVC_KEEP") == "" {
+			os.Remove(file)
+		}
 	case satIdx >= 0:
 		ob.Status = "failed"
 		ob.Model = modelFor(sc, ob, satIdx, best[satIdx].solver, opts)
@@ -512,7 +542,9 @@ func solveObligation(sc *smtScript, ob *Obligation, opts solveOpts) {
 			if !still {
 				ob.Status = "discharged"
 				ob.Solver = "core"
-				os.Remove(file)
+				if os.Getenv("GOVC_KEEP") == "" {
+					os.Remove(file)
+				}
 				return
 			}
 		}
@@ -728,7 +760,9 @@ func solveLemma(ob *Obligation, opts solveOpts) {
 	switch verdict {
 	case "unsat":
 		ob.Status = "discharged"
-		os.Remove(file)
+		if os.Getenv("GOVC_KEEP") == "" {
+			os.Remove(file)
+		}
 	case "sat":
 		ob.Status = "failed"
 		mf := filepath.Join(opts.workDir, sanitizeFile(ob.Name)+".model.smt2")
